@@ -15,9 +15,11 @@ VARIABLE l
 tvars == <<l>>
 IsEvent(e) == l <= Len(Trace) /\ Trace[l].ev = e /\ l' = l + 1
 
-SameSection(exp, got) ==
+\* sec: the section of the document.  Without any `listen` / `interface` the property says nothing about which
+\* default listeners are created (Config!DefaultListen documents what the code does): only the plugins are compared.
+SameSection(sec, exp, got) ==
   /\ got.present = exp.present
-  /\ exp.present => /\ got.addrs = exp.addrs          \* exactly the listed addresses, in order, defaults filled in
+  /\ exp.present => /\ (sec.listen.k # "absent" \/ sec.iface # "") => got.addrs = exp.addrs   \* the listed addresses, in order, defaults filled in
                     /\ got.plugins = exp.plugins      \* exactly the listed plugins, in order, with their arguments
 
 TraceLoad ==
@@ -26,7 +28,7 @@ TraceLoad ==
      ("C18" \in Lens) =>
         /\ ~e.res.panic                               \* no configuration makes loading panic
         /\ e.res.err = exp.err                        \* rejected with an error exactly when the statement says so
-        /\ ~exp.err => SameSection(exp.s4, e.res.s4) /\ SameSection(exp.s6, e.res.s6)
+        /\ ~exp.err => SameSection(e.doc.s4, exp.s4, e.res.s4) /\ SameSection(e.doc.s6, exp.s6, e.res.s6)
 
 TraceFuzz ==
   /\ IsEvent("fuzz")
